@@ -50,6 +50,12 @@ fn program_case(ctx: &mut Ctx, tag: &str, program: &quil_rs::Program) {
     ctx.case(tagged(tag, vec![input]), || run_from_program(program, &DefaultHandler));
 }
 
+fn ast_case(ctx: &mut Ctx, text: &str) {
+    let instructions = parsed_instructions(text);
+    let (program, parts) = ast_parts(&instructions);
+    ctx.case(tagged("ast", parts), || run_from_program(&program, &DefaultHandler));
+}
+
 fn kind_of(k: u8) -> MemoryAccessType {
     match k {
         0 => MemoryAccessType::Read,
@@ -207,5 +213,23 @@ fn run(ctx: &mut Ctx) {
         let text = program_text(&mut rng, &cfg);
         let program = parse(&text);
         program_case(ctx, "random", &program);
+    }
+
+    // 5. "ast" stream: the program crosses the wire as the full AST; the driver derives blocks and the
+    //    handler's answers itself (HandlerFromAst) — corpus, then random programs with definitions, CALLs
+    //    and expressions carrying memory references
+    for text in CORPUS {
+        ast_case(ctx, text);
+    }
+    let n_ast = if quick { 3000 } else { 100_000 };
+    let mut rng = ctx.rng(123);
+    for i in 0..n_ast {
+        let cfg = match i % 3 {
+            0 => ProgCfg { nframes: 0, nreg: 3, max_len: 10, rf_pct: 0, cf_pct: 5, bad_permille: 0 },
+            1 => ProgCfg { nframes: 3, nreg: 2, max_len: 10, rf_pct: 35, cf_pct: 8, bad_permille: 5 },
+            _ => ProgCfg { nframes: 5, nreg: 3, max_len: 14, rf_pct: 50, cf_pct: 12, bad_permille: 10 },
+        };
+        let text = ast_program_text(&mut rng, &cfg);
+        ast_case(ctx, &text);
     }
 }
